@@ -1301,6 +1301,45 @@ impl<'a> Gen<'a> {
         let n = 1 + self.rng.below(max_tables as u64) as usize;
         self.safe_arith = true;
         let mut f = From::Table(self.rng.below(db.len() as u64) as usize);
+        // family "key-chain": a chain of equi-joins that all use the same column of the first table as their (first) key,
+        // the later ones with a second key from the first table — the shape in which an ordering established for one
+        // join is (wrongly or rightly) reused for the next
+        if n == 3 && self.rng.chance(1, 2) {
+            let tys0 = from_tys(&f, db);
+            let ints0: Vec<usize> = (0..tys0.len()).filter(|i| matches!(tys0[*i], Ty::Int | Ty::BigInt)).collect();
+            if ints0.len() >= 2 {
+                self.tag("join.keychain");
+                let x = *self.rng.pick(&ints0);
+                let others: Vec<usize> = ints0.iter().cloned().filter(|i| *i != x).collect();
+                let s2 = *self.rng.pick(&others);
+                for step in 1..n {
+                    let t = self.rng.below(db.len() as u64) as usize;
+                    let kind = *self.rng.pick(&["inner", "inner", "left", "right", "full"]);
+                    self.tag(&format!("join.{}", kind));
+                    let lw = from_tys(&f, db).len();
+                    let joined = From::Join(kind, Box::new(f.clone()), Box::new(From::Table(t)), None);
+                    let tys = from_tys(&joined, db);
+                    let rints: Vec<usize> =
+                        (lw..tys.len()).filter(|i| matches!(tys[*i], Ty::Int | Ty::BigInt)).collect();
+                    if rints.is_empty() {
+                        f = From::Join("cross", Box::new(f), Box::new(From::Table(t)), None);
+                        continue;
+                    }
+                    let r1 = *self.rng.pick(&rints);
+                    let c1 = E::Cmp("eq", Box::new(E::Col(x)), Box::new(E::Col(r1)));
+                    let on = if step >= 2 || self.rng.chance(1, 3) {
+                        let r2 = *self.rng.pick(&rints);
+                        self.tag("join.equi.2keys");
+                        E::And(Box::new(c1), Box::new(E::Cmp("eq", Box::new(E::Col(s2)), Box::new(E::Col(r2)))))
+                    } else {
+                        c1
+                    };
+                    self.tag("join.equi");
+                    f = From::Join(kind, Box::new(f), Box::new(From::Table(t)), Some(on));
+                }
+                return f;
+            }
+        }
         for _ in 1..n {
             let t = self.rng.below(db.len() as u64) as usize;
             let kind = *self.rng.pick(&["inner", "inner", "left", "right", "full", "cross"]);
@@ -1341,6 +1380,15 @@ impl<'a> Gen<'a> {
                     Some(self.bool_expr(&tys, p, 1))
                 }
             };
+            // a join condition that does not mention both inputs (region of finding KF-C05-commuted-join-keeps-indices)
+            if let Some(c) = &on {
+                let mut cs = Vec::new();
+                expr_cols(c, &mut cs);
+                let lw = ltys.len();
+                if !cs.is_empty() && (cs.iter().all(|i| *i < lw) || cs.iter().all(|i| *i >= lw)) {
+                    self.tag("join.on.oneside");
+                }
+            }
             f = From::Join(kind, Box::new(f), Box::new(From::Table(t)), on);
         }
         f
